@@ -56,6 +56,23 @@ template<> struct Elem<std::string> {
     }
 };
 
+// Same lifetime tracking, but the move operations are not noexcept: code that picks copy-vs-move by
+// std::move_if_noexcept / is_nothrow_move_constructible takes its other branch for this type.
+struct TrackedThrowingMove : Tracked {
+    TrackedThrowingMove() = default;
+    explicit TrackedThrowingMove(int64_t v) : Tracked(v) {}
+    TrackedThrowingMove(const TrackedThrowingMove &) = default;
+    TrackedThrowingMove(TrackedThrowingMove &&o) noexcept(false) : Tracked(std::move(static_cast<Tracked &>(o))) {}
+    TrackedThrowingMove &operator=(const TrackedThrowingMove &) = default;
+    TrackedThrowingMove &operator=(TrackedThrowingMove &&o) noexcept(false) { Tracked::operator=(std::move(static_cast<Tracked &>(o))); return *this; }
+};
+static_assert(!std::is_nothrow_move_constructible_v<TrackedThrowingMove>);
+template<> struct Elem<TrackedThrowingMove> {
+    static constexpr const char *name = "tracked-throwing-move";
+    static TrackedThrowingMove make(int64_t v) { return TrackedThrowingMove(v); }
+    static int64_t val(const TrackedThrowingMove &t) { return t.get(); }
+};
+
 template<> struct Elem<double> {
     static constexpr const char *name = "double";
     static double make(int64_t v) { return (double) v + 0.25; }
